@@ -21,6 +21,9 @@ def base_scenarios(rng, n):
         if kind == 'apply':
             k = rng.randint(2, 6)
             op = {'op': 'apply_batch', 'tasks': [{'idx': i} for i in range(k)], 'dur': {'kind': 'map', 'map': {}, 'default': 0.02}, 'get_timeout': 30}
+            if rng.random() < .5:
+                op['init'] = True
+                op['init_dur'] = 0.02
         else:
             op = {'op': kind, 'n': rng.randint(2, 8), 'chunk_size': rng.choice([1, 2]), 'dur': {'kind': 'hash', 'salt': rng.randint(0, 99), 'unit': 0.01}}
             if rng.random() < .3:
@@ -80,8 +83,14 @@ def judge(chk, sc, o):
                           input_class='apply_death_job0_alias')
         elif len(bad) > 1 or any(a[2] != 'RuntimeError' for a in bad):
             window = inj.get('victim_phase') in ('apply_pill_taken', 'apply_task_taken')
+            in_hook = False
+            if inj.get('victim_phase') in ('init_announced', 'exit_announced', 'init_ran', 'exit_ran'):
+                # attributed to the INIT/EXIT job: the known behaviour is that the pending tasks fail fast with RuntimeError.
+                # A task that is never settled (lost) at such a point is a different failure and is not covered by the finding
+                window = False
+                in_hook = all(a[2] == 'RuntimeError' for a in bad)
             chk.violation('apply_death_isolated', case, {'failed': bad, 'injected': inj}, 'at most the one task the dead worker was running fails, with RuntimeError',
-                          input_class='apply_death_dequeue_window' if window else 'apply_death')
+                          input_class='apply_death_dequeue_window' if window else 'apply_death_in_worker_init' if in_hook else 'apply_death')
         cls = 'apply:%d-failed' % len(bad)
     else:
         if last.get('outcome') == 'raise':
